@@ -54,7 +54,7 @@ def gen_cmd(rng, cid, nmax, blanks=False):
 
 
 def gen_session(rng, kind):
-    """kind: 'c01' (queries/modes/commands), 'c14' (select-1/exit-0), 'c10' (selection actions), 'c20' (preview pane)"""
+    """kind: 'c01' (queries/modes/commands), 'c14' (select-1/exit-0), 'c10' (selection actions), 'c20' (preview pane), 'c07' (preview context)"""
     if kind == "c05" and rng.random() < 0.08:
         # directed: selected items that the current query hides stay selected through toggle-all / select-all and are returned
         n = rng.choice([3, 5, 8])
@@ -70,6 +70,36 @@ def gen_session(rng, kind):
         cmds = ["c0=0@" + items] + ["%s=0@" % c for c in CMDS[1:]]
         evs = ["idle", "add:%d" % ord(rng.choice("12")), "idle"] + [rng.choice(["up:1", "up:2", "down:1", "up:1"]) + " idle" for _ in range(rng.randint(1, 4))]
         return "S|interactive,nce,pv%s|%s|%s|-|x" % (rng.choice(["", ",multi"]), ";".join(cmds), " ".join(evs))
+    if kind == "c07":
+        # C07 at the Model's wiring of the preview context: interactive mode whose command template has NO `{}` (the command never
+        # changes, whatever is typed), a preview pane; the command query handed to the previewer ({cq}) must be the one on the query line
+        n = rng.choice([1, 3, 8])
+        items = ",".join(enc("%s-0.%d" % (rng.choice(WORDS), i)) for i in range(n))
+        opts = ["interactive", "fixcmd", "pv"] + (["multi"] if rng.random() < 0.3 else []) + \
+               (["chist=" + "+".join(enc(rng.choice(["0", "1", "2", "01", "02"])) for _ in range(rng.randint(1, 3)))] if rng.random() < 0.4 else [])
+        evs = ["idle"]
+        for _ in range(rng.choice([1, 2, 4, 8])):
+            r = rng.random()
+            if r < 0.5:
+                evs.append("add:%d" % ord(rng.choice("012ab")))
+            elif r < 0.65:
+                evs.append("bs")
+            elif r < 0.75 and "chist=" in ",".join(opts):
+                evs.append(rng.choice(["prevh", "nexth"]))
+            elif r < 0.85:
+                evs.append(rng.choice(["up:1", "down:1", "toggle"]))
+            elif r < 0.92:
+                evs.append("ti")
+            else:
+                evs.append("idle")
+        evs.append("idle")
+        return "S|%s|c0=0@%s|%s|-|x" % (",".join(opts), items, " ".join(evs))
+    if kind == "c01" and rng.random() < 0.05:
+        # directed: a long source in several chunks under a non-empty query with sorting on — later harvests bring more than a hundred
+        # results that rank before what is already listed (the list has been read at the end of every iteration)
+        spec, n = gen_cmd(rng, 0, rng.choice([1100, 1600]))
+        evs = ["idle"] + (["add:%d" % ord(rng.choice(ALPHA)), "idle"] if rng.random() < 0.4 else [])
+        return "S|q=%s|c0=%s|%s|-|x" % (enc(rng.choice(ALPHA)), spec, " ".join(evs))
     opts = []
     # interactive sessions re-run commands: the run number of an item changes, and comes back when a command text comes back
     interactive = (kind == "c01" and rng.random() < 0.35) or (kind in ("c10", "c05") and rng.random() < 0.25) or (kind == "c20" and rng.random() < 0.6)
@@ -376,6 +406,7 @@ def _post(case, impl):
                 toks.append("CUR %s" % (info["list"][info["cur"]] if info["cur"] < len(info["list"]) else "x"))
                 dkey = "%s/%d" % (enc(info["dq"]), int(info["re"]))
                 toks.append("DQ %d %d" % (qids.get(dkey, 999), cid_of.get(info["dcmd"], 99)))
+                toks.append("CQ %s" % enc(info["cq"]))     # the command query the Model hands to the previewer ({cq}) vs. the one edited
                 if info["pv"] != "-":
                     toks.append("PV %d %s" % (info["pv"] == "true", snap.rsplit(" ", 1)[1]))
             pos = e + 1 if end is not None else e
@@ -461,6 +492,7 @@ def _post(case, impl):
             # what the query line shows at the end of the iteration: (query, mode) key and command of the DISPLAYED text
             dkey = "%s/%d" % (enc(info["dq"]), int(info["re"]))
             toks.append("DQ %d %d" % (qids.get(dkey, 999), cid_of.get(info["dcmd"], 99)))
+            toks.append("CQ %s" % enc(info["cq"]))     # the command query the Model hands to the previewer ({cq}) vs. the one edited
             if info["pv"] != "-":
                 toks.append("PV %d %s" % (info["pv"] == "true", snap.rsplit(" ", 1)[1]))
         pos = e + 1 if end is not None else e
